@@ -1,6 +1,7 @@
 package checks
 
 import (
+	"encoding/base64"
 	"fmt"
 	"strings"
 
@@ -85,6 +86,20 @@ func secondFactorProven(s *sim.Sim, st *sim.Step, U, flow string) string {
 	return ""
 }
 
+// cookiePID is the account a remember cookie value names (pid ';' 32-byte nonce, base64).
+func cookiePID(val string) string {
+	b, err := base64.StdEncoding.DecodeString(val)
+	if err != nil {
+		if b, err = base64.URLEncoding.DecodeString(val); err != nil {
+			return ""
+		}
+	}
+	if len(b) < 34 || b[len(b)-33] != ';' {
+		return ""
+	}
+	return string(b[:len(b)-33])
+}
+
 type c02mon struct{ stats *sim.Stats }
 
 func (m c02mon) Check(s *sim.Sim, st *sim.Step) []*sim.Violation {
@@ -92,6 +107,22 @@ func (m c02mon) Check(s *sim.Sim, st *sim.Step) []*sim.Violation {
 	flow := flowOf(s, rec)
 	if flow == "" || flow == "oauth_cb" || flow == "register" {
 		return nil
+	}
+	// the primary step of an account with a second factor only parks the login: it hands out nothing
+	// that stands for a session — in particular no remember-me cookie (which would re-authenticate the
+	// browser later without any second factor)
+	if flow == "login" || flow == "otp_login" || flow == "recover_end" {
+		if pid, ok := s.PrimaryValid(st); ok && rec.FaultsFired == 0 {
+			if u := rec.Before.Users[pid]; has2FA(s.Cfg, u) && st.UIDOut != pid {
+				if c := sim.IssuedCookie(rec); c != "" && cookiePID(c) == pid { // (not the rotation of somebody else's cookie by the middleware)
+					return []*sim.Violation{vio("C02", "remember-cookie-issued-at-primary-step|"+flow, "the %s step of %q, which has a second factor enabled, set a remember-me cookie although the login is only parked", flow, pid)}
+				}
+				if len(rec.After.Tokens[pid]) > len(rec.Before.Tokens[pid]) {
+					return []*sim.Violation{vio("C02", "remember-token-stored-at-primary-step|"+flow, "the %s step of %q, which has a second factor enabled, stored a remember token although the login is only parked", flow, pid)}
+				}
+				m.stats.Count("primary-step-parked-without-cookie")
+			}
+		}
 	}
 	U := st.UIDOut
 	if U == "" || U == st.UIDIn {
